@@ -36,7 +36,7 @@ POOLS = {
     "deep": ["a", "b"],
 }
 POOL_ORDER = ["ab", "abc", "abcd", "real", "idn", "edge", "digits", "suffixy", "wide", "deep"]
-URL_FORMS = ["http", "bare", "port", "schemeless", "auth", "split", "https_q"]
+URL_FORMS = ["http", "bare", "port", "schemeless", "auth", "split", "https_q", "auth_noport", "user_only", "upper_scheme", "query_only"]
 NONSTRING = ["none", "int", "list", "bytes"]
 FAULT_KINDS = ["iter_cancel", "add_raises"]
 
@@ -98,6 +98,14 @@ def render_url(host, form):
         return "//%s/x" % host
     if form == "auth":
         return "https://u:p@%s:443/#f" % host
+    if form == "auth_noport":
+        return "http://user:secret@%s/x" % host
+    if form == "user_only":
+        return "ftp://user@%s:21/" % host
+    if form == "upper_scheme":
+        return "HTTPS://%s/Path" % host
+    if form == "query_only":
+        return "http://%s?x=1#frag" % host
     if form == "https_q":
         return "https://%s?q=http://other.example/" % host
     if form == "split":
